@@ -174,7 +174,7 @@ pub const OPERATORS: &[&str] = &[
     "root-missing", "root-multiple", "text-after-root", "text-before-root", "xmldecl-misplaced", "xmldecl-dup", "xmldecl-version", "xmldecl-order",
     "xmldecl-noversion", "pi-reserved", "pi-reserved-case", "doctype-dup", "doctype-after-root", "pi-unclosed", "comment-unclosed", "cdata-unclosed",
     "cdata-outside-root", "attr-entity-lt", "entity-recursive", "entity-unparsed-ref", "entity-external-attr", "empty-document", "etag-attr",
-    "entity-value-lt-ref", "stag-unclosed", "attr-value-unquoted-end", "doctype-noname", "name-empty",
+    "entity-value-lt-ref", "entity-amp-ref", "entity-amp-attr", "entity-charref-illegal", "entity-hidden-recursion", "stag-unclosed", "attr-value-unquoted-end", "doctype-noname", "name-empty",
 ];
 
 fn find_kind(toks: &[Tok], k: TK, r: &mut Rng) -> Option<usize> {
@@ -277,6 +277,10 @@ pub fn apply_operator(op: &str, toks: &[Tok], r: &mut Rng) -> Option<String> {
         "empty-document" => { return Some(r.pick_s(&["", " ", "\n", "<?xml version=\"1.0\"?>", "<!--c-->", "<!DOCTYPE a>"]).to_string()); }
         "etag-attr" => { let i = find_kind(&t, TK::ETag, r)?; let s = t[i].s.clone(); t[i].s = format!("{} a=\"1\">", s.trim_end_matches('>').trim_end()); }
         "entity-value-lt-ref" => { let i = content_site(&t, r)?; t.insert(i, tok(TK::EntRef, "&zm;")); return Some(with_decl(&t, "<!ENTITY zm \"<q>\">")); }
+        "entity-amp-ref" => { let i = content_site(&t, r)?; t.insert(i, tok(TK::EntRef, "&zam;")); return Some(with_decl(&t, r.pick_s(&["<!ENTITY zam \"a&#38;b\">", "<!ENTITY zam \"&#x26;\">", "<!ENTITY zam \"x&#38;amp y\">", "<!ENTITY zam \"&#38;#;\">", "<!ENTITY zam \"&#38;#x;\">", "<!ENTITY zam \"&#38;a b;\">"]))); }
+        "entity-amp-attr" => { let i = find_kind(&t, TK::AttrValue, r)?; let q = t[i].s.chars().next().unwrap(); t[i].s = format!("{}&zaa;{}", q, q); return Some(with_decl(&t, r.pick_s(&["<!ENTITY zaa \"a&#38;b\">", "<!ENTITY zaa \"&#38;#1;\">", "<!ENTITY zaa \"&#x26;\">"]))); }
+        "entity-charref-illegal" => { let i = content_site(&t, r)?; t.insert(i, tok(TK::EntRef, "&zci;")); return Some(with_decl(&t, r.pick_s(&["<!ENTITY zci \"a&#38;#23;\">", "<!ENTITY zci \"&#38;#x0;\">", "<!ENTITY zci \"&#38;#xFFFE;\">", "<!ENTITY zci \"&#38;#xD800;\">", "<!ENTITY zci \"&#38;#x110000;\">"]))); }
+        "entity-hidden-recursion" => { let i = content_site(&t, r)?; t.insert(i, tok(TK::EntRef, "&zh1;")); return Some(with_decl(&t, r.pick_s(&["<!ENTITY zh1 \"&#38;zh1;\">", "<!ENTITY zh1 \"&zh2;\"><!ENTITY zh2 \"x&#38;zh1;\">", "<!ENTITY zh1 \"&#x26;zh2;\"><!ENTITY zh2 \"&#38;zh1;\">"]))); }
         "stag-unclosed" => { let i = find_kind(&t, TK::STagClose, r)?; t[i].s = String::new(); if i + 1 < t.len() && t[i + 1].k == TK::Text { t[i + 1].s = format!("<b/>{}", t[i + 1].s.replace('>', "")); } else { t.insert(i + 1, tok(TK::Text, "<b/>")); } }
         "attr-value-unquoted-end" => { let i = find_kind(&t, TK::AttrValue, r)?; let q = t[i].s.chars().next().unwrap(); let other = if q == '"' { '\'' } else { '"' }; t[i].s = format!("{}v{}", q, other); for x in t.iter_mut().skip(i + 1) { x.s = x.s.replace(q, ""); } }
         "elem-name-colon2" => { let _ = root_content; return Some(r.pick_s(&["<a:b:c xmlns:a=\"u\"/>", "<:a/>", "<a:/>", "<a xmlns:p=\"u\" p::x=\"1\"/>", "<a :x=\"1\"/>"]).to_string()); }
@@ -360,7 +364,13 @@ pub fn c02(ctx: &mut Ctx) {
             if lx.wf { ctx.inconclusive("operator_not_confirmed_by_libxml2"); if ctx.notes.len() < 8 { ctx.notes.push(format!("libxml2 accepts [{}] {}", op, text)); } }
             else {
                 match xmlrs_accepts(&text) {
-                    Ok(true) => ctx.violation(i, &format!("C02/accept/{}", op), &format!("accepted with empty rest: {}", text), &[("text", &text), ("op", op)]),
+                    Ok(true) => {
+                        // the operator's own site may have been swallowed by a construct that only a recorded finding lets through
+                        // (e.g. "<" in front of text "?1 x" forms a PI with target "1"): same explanation rule as for blind edits
+                        let own = matches!(op, "pi-target-start" | "entity-name-start" | "attr-entity-lt" | "entity-value-lt-ref");
+                        let sig = match explain_blind(&text) { Some(e) if !own => format!("C02/accept/blind-explained/{}", e), _ => format!("C02/accept/{}", op) };
+                        ctx.violation(i, &sig, &format!("accepted with empty rest: {}", text), &[("text", &text), ("op", op)])
+                    }
                     Ok(false) => ctx.count("rejected"),
                     Err(_) => ctx.count("rejected-by-panic"),
                 }
